@@ -131,6 +131,43 @@ fn ref_for<G: Group>(o: &Opened<G>, challenges: &[Scalar]) -> RefVerdict<G> {
     paper_residual(&inp)
 }
 
+/// The relation must hold at *Fiat-Shamir* challenges: each challenge is only one if every prover
+/// message that precedes it in the protocol was absorbed before it was drawn. Checked on the
+/// recorded transcript log: A before y; L_j, R_j before e_j; A1 and B before the final e; and
+/// every commitment before y. Returns the first message found missing.
+fn fiat_shamir_order(view: &TranscriptView, parts: &ProofParts, commitments: &[[u8; 32]]) -> Option<String> {
+    let rounds = parts.lr.len();
+    if view.challenges.len() != rounds + 3 {
+        return None;
+    }
+    let has = |upto_ord: usize, h: &[u8; 32]| -> bool {
+        (0..=upto_ord).any(|o| view.appends_before(o).iter().any(|(_, m)| m.as_slice() == h.as_slice()))
+    };
+    if !has(0, &parts.a) {
+        return Some("A is not absorbed before y".into());
+    }
+    for (j, c) in commitments.iter().enumerate() {
+        if !has(0, c) {
+            return Some(format!("commitment {} is not absorbed before y", j));
+        }
+    }
+    for (j, (l, r)) in parts.lr.iter().enumerate() {
+        if !has(2 + j, l) {
+            return Some(format!("L[{}] is not absorbed before its round challenge", j));
+        }
+        if !has(2 + j, r) {
+            return Some(format!("R[{}] is not absorbed before its round challenge", j));
+        }
+    }
+    if !has(2 + rounds, &parts.a1) {
+        return Some("A1 is not absorbed before the final challenge".into());
+    }
+    if !has(2 + rounds, &parts.b) {
+        return Some("B is not absorbed before the final challenge".into());
+    }
+    None
+}
+
 fn is_identity<G: Group>(p: &G) -> bool {
     *p == G::identity()
 }
@@ -184,11 +221,27 @@ fn run_ristretto(sc: &Scenario, st: &mut RunStats) -> Vec<Violation> {
             return out;
         },
     };
+    let cenc: Vec<[u8; 32]> = o.msg.commitments.iter().map(|c| G::enc(c)).collect();
+    if let Some(missing) = fiat_shamir_order(&view, &o.parts, &cenc) {
+        out.push(Violation::new(
+            "challenge_drawn_before_prover_message_absorbed",
+            missing.clone(),
+            format!("Ristretto, bits {} ext {}: {} — the relation is then not enforced at a Fiat-Shamir challenge", sc.bits, sc.ext, missing),
+        ));
+        return out;
+    }
     let rv = ref_for::<G>(&o, &view.challenges);
     let (ref_ok, why) = match &rv {
         RefVerdict::ShapeReject(w) => (false, format!("shape: {}", w)),
+        // no shape defect, yet the verifier stopped early: the reference would go on to evaluate
+        // the relation, so an Err here has no ground in the protocol
+        RefVerdict::NoChallenges(n) => (true, format!("no shape defect, but the verifier stopped after {} challenges", n)),
         RefVerdict::Residual(r) => (is_identity(r), "relation".to_string()),
     };
+    if lib_ok && matches!(rv, RefVerdict::NoChallenges(_)) {
+        out.push(Violation::new("harness:observation_unavailable", "observe", "verifier accepted but drew fewer challenges than the protocol has".to_string()));
+        return out;
+    }
     st.event(format!(
         "ristretto source={} lib_ok={} ref_ok={} ({}) challenges={}",
         src_name(&ms.source),
@@ -299,10 +352,26 @@ fn run_free(sc: &Scenario, st: &mut RunStats) -> Vec<Violation> {
     }
     let mut refs = Vec::new();
     let mut any_shape = None;
+    let mut stopped_early = None;
     for (i, o) in opened.iter().enumerate() {
+        let cenc: Vec<[u8; 32]> = o.msg.commitments.iter().map(|c| G::enc(c)).collect();
+        if let Some(missing) = fiat_shamir_order(&obs.views[i], &o.parts, &cenc) {
+            out.push(Violation::new(
+                "challenge_drawn_before_prover_message_absorbed",
+                missing.clone(),
+                format!("bits {} ext {} member {}: {} — the relation is then not enforced at a Fiat-Shamir challenge", sc.bits, sc.ext, i, missing),
+            ));
+            return out;
+        }
         let rv = ref_for::<G>(o, &obs.views[i].challenges);
-        if let RefVerdict::ShapeReject(w) = &rv {
-            any_shape.get_or_insert(format!("member {}: {}", i, w));
+        match &rv {
+            RefVerdict::ShapeReject(w) => {
+                any_shape.get_or_insert(format!("member {}: {}", i, w));
+            },
+            RefVerdict::NoChallenges(n) => {
+                stopped_early.get_or_insert((i, *n));
+            },
+            _ => {},
         }
         refs.push(rv);
     }
@@ -334,6 +403,28 @@ fn run_free(sc: &Scenario, st: &mut RunStats) -> Vec<Violation> {
                 "accepted_where_reference_rejects",
                 key,
                 format!("bits {} ext {}: the batch was accepted although the reference refuses it without evaluating the relation ({})", sc.bits, sc.ext, why),
+            ));
+        }
+        return out;
+    }
+    if let Some((i, n)) = stopped_early {
+        st.probe("verifier_stopped_before_all_challenges");
+        if lib_ok {
+            out.push(Violation::new("harness:observation_unavailable", "observe", "verifier accepted but drew fewer challenges than the protocol has".to_string()));
+        } else {
+            out.push(Violation::new(
+                "rejected_where_reference_accepts",
+                key,
+                format!(
+                    "bits {} ext {} sources {:?}: verify_batch returned {} after drawing only {} challenge(s) for member {}, but the reference finds no shape defect in any member (promises {:?})",
+                    sc.bits,
+                    sc.ext,
+                    srcs,
+                    render_verify(&obs.result),
+                    n,
+                    i,
+                    opened[i].msg.promises
+                ),
             ));
         }
         return out;
